@@ -13,6 +13,8 @@ from __future__ import annotations
 
 import math
 
+import itertools
+
 import torch
 import torch.nn as nn
 
@@ -385,6 +387,54 @@ def constraint_shard(kind, strict, shape, dims, sizes, depth):
     return tally
 
 
+def caller_dict_shard(kind):
+    """Constraint bookkeeping belongs to the tensor: two tensors built from one caller-owned constraints dict stay independent, the
+    caller's dict is never rewritten by reconstrain, and editing it afterwards does not change a tensor. Every sequence of up to
+    three reconstrain operations on the first tensor."""
+    tally = Tally()
+    ops = [(d, s) for d in (0, 1, -1) for s in (None, 2, 3, 4)]
+    for strict in (True, False):
+        for depth in (1, 2, 3):
+            for seq in itertools.product(ops, repeat=depth):
+                tally.add("evaluations")
+                case = {"part": "caller-owned constraints dict", "kind": kind, "strict": strict, "reconstrain_sequence_on_first": [list(o) for o in seq]}
+                d = {0: 2}
+                mod = inferno.Module()
+                base = torch.arange(6, dtype=torch.float32).reshape(2, 3)
+                try:
+                    if kind == "shaped":
+                        ShapedTensor.create(mod, "a", base.clone(), constraints=d, strict=strict)
+                        ShapedTensor.create(mod, "b", base.clone(), constraints=d, strict=strict)
+                    else:
+                        RecordTensor.create(mod, "a", 1.0, 1.0, base.clone(), constraints=d, strict=strict)
+                        RecordTensor.create(mod, "b", 1.0, 1.0, base.clone(), constraints=d, strict=strict)
+                except Exception as ex:
+                    tally.violation(f"exception:create-with-constraints:{kind}:{type(ex).__name__}", case, repr(ex))
+                    break
+                a, b = mod.a, mod.b
+                b_data = b.value.detach().clone()
+                for (dim, size) in seq:
+                    try:
+                        a.reconstrain(dim, size)
+                    except Exception:
+                        pass  # refusals are legal; what matters is what happened to the others
+                if d != {0: 2}:
+                    tally.violation(f"caller-dict-rewritten:{kind}", case, f"reconstrain on the tensor rewrote the caller's dict to {d}", {0: 2}, dict(d))
+                    continue
+                if dict(b.constraints) != {0: 2} or not b.valid or not torch.equal(b.value.detach(), b_data):
+                    tally.violation(f"sibling-tensor-changed:{kind}", case, f"a second tensor built from the same dict now reports constraints "
+                                    f"{dict(b.constraints)}, valid={b.valid}", {0: 2}, dict(b.constraints))
+                    continue
+                before = dict(a.constraints)
+                d[1] = 7
+                if dict(a.constraints) != before:
+                    tally.violation(f"caller-dict-aliased:{kind}", case, f"editing the caller's dict afterwards changed the tensor's constraints to {dict(a.constraints)}",
+                                    before, dict(a.constraints))
+                tally.mark("nontrivial", ("caller-dict", kind, strict, seq))
+    tally.sample({"part": "caller-owned constraints dict", "kind": kind, "ops": len(ops)})
+    return tally
+
+
 def run(rep):
     quick = rep.tier == "quick"
     jobs = []
@@ -405,6 +455,8 @@ def run(rep):
         for strict in (True, False):
             for shape in ((2, 3), (3, 2, 2)) if kind != "shaped-none" else ((2, 3),):
                 jobs.append((constraint_shard, (kind, strict, shape, (0, 1, -1, -2), (None, 1, 2, 3), cdepth)))
+    for kind in ("shaped", "record"):
+        jobs.append((caller_dict_shard, (kind,)))
     tally = run_shards(jobs, seed=rep.seed)
     rep.tally.merge(tally)
     c = tally.counts
